@@ -46,7 +46,9 @@ structure RSt where
   atomic : Bool := true
   freeP : Bool := false     -- producer released from its hook (running or blocked)
   freeT : Bool := false
-  out : List Nat := []      -- sent to Output during the current step
+  failed : List Nat := []   -- sequence numbers whose fetch was completed with an error
+  pendAdd : List Nat := []  -- fetches completed by the schedule whose goroutine still waits for the buffer mutex
+  out : List Nat := []      -- received by the consumer during the current step
 
 def fetchFn (evs : List Nat) : List Nat := evs
 
@@ -59,13 +61,14 @@ def setFree (st : RSt) (t : Reorder.Tid) (v : Bool) : RSt :=
   | .prod => { st with freeP := v }
   | .tmo => { st with freeT := v }
 
-/-- apply one action of the transition system; `none` if it is not enabled -/
+/-- apply one action of the transition system; `none` if it is not enabled. Every sequence number is completed at
+most once, so the per-step oracle `failed.contains` agrees with one fixed oracle for the whole trace. -/
 def act (st : RSt) (a : Reorder.Act Nat) : Option RSt :=
-  match Reorder.step fetchFn st.atomic st.s a with
+  match Reorder.step fetchFn (fun q => st.failed.contains q) st.atomic st.s a with
   | some (s', o) => some { st with s := s', out := st.out ++ o }
   | none => none
 
-/-- let one released thread run until it parks at its next hook point, returns, or blocks -/
+/-- let one released flusher run until it parks at its next hook point, returns, or blocks -/
 def advance (st : RSt) (t : Reorder.Tid) : Option RSt :=
   if !isFree st t then none else
   match Reorder.pc st.s t with
@@ -76,15 +79,28 @@ def advance (st : RSt) (t : Reorder.Tid) : Option RSt :=
   | .mid _ => (act st (.flushB t)).map (fun st1 => setFree st1 t false)        -- none: blocked in Reserve
   | _ => none
 
+/-- one step of the fetch goroutines: send, dequeue the next batch, end the drain, `buffer.Add`, enter `Drain` -/
+def advanceBuf (st : RSt) : Option RSt :=
+  match st.s.drainer with
+  | some (_ :: _) => act st .send                      -- none: `Output` is full, the drain is blocked holding the mutex
+  | some [] => act st .drainNext
+  | none =>
+    match st.pendAdd with
+    | q :: rest => (act st (.fetchDone q)).map (fun st1 => { st1 with pendAdd := rest })
+    | [] => act st .drainStart
+
 def settle : Nat → RSt → RSt
   | 0, st => st
   | n + 1, st =>
-    match advance st .prod with
+    match advanceBuf st with
     | some st1 => settle n st1
     | none =>
-      match advance st .tmo with
+      match advance st .prod with
       | some st1 => settle n st1
-      | none => st
+      | none =>
+        match advance st .tmo with
+        | some st1 => settle n st1
+        | none => st
 
 def thrStr (st : RSt) (t : Reorder.Tid) : String :=
   match Reorder.pc st.s t with
@@ -94,9 +110,13 @@ def thrStr (st : RSt) (t : Reorder.Tid) : String :=
   | .locked => "l"
   | .mid evs => if isFree st t then "C" else s!"m{evs.length}"
 
+/-- fetches the schedule has not completed yet -/
+def running (st : RSt) : List (Nat × List Nat) := st.s.inflight.filter (fun p => !st.pendAdd.contains p.1)
+
 def snapshot (st : RSt) : String :=
-  let run := st.s.inflight.map (fun p => s!"{p.1}:" ++ joinWith "." (p.2.map toString))
-  s!"p={thrStr st .prod} t={thrStr st .tmo} run={if run.isEmpty then "-" else joinWith ";" run} out={showNats st.out}"
+  let run := (running st).map (fun p => s!"{p.1}:" ++ joinWith "." (p.2.map toString))
+  s!"p={thrStr st .prod} t={thrStr st .tmo} run={if run.isEmpty then "-" else joinWith ";" run} " ++
+  s!"out={showNats st.out} q={st.s.outq.length} pend={(Reorder.curOf st.s.drainer).length} errs={st.s.errs}"
 
 def finish (st : RSt) (res : String) : RSt × String :=
   (st, res ++ " | " ++ snapshot st)
@@ -109,6 +129,23 @@ def parked (st : RSt) (t : Reorder.Tid) : Bool :=
   !isFree st t && (match Reorder.pc st.s t with | .enter => true | .mid _ => true | _ => false)
 
 def tidOf (s : String) : Reorder.Tid := if s == "p" then .prod else .tmo
+
+def takeN : Nat → RSt → RSt
+  | 0, st => st
+  | n + 1, st =>
+    match act st .recv with
+    | some st1 => takeN n (settle 64 st1)
+    | none => st
+
+def complete (st : RSt) (r : Nat) (ok : Bool) : RSt × String :=
+  match running st with
+  | [] => finish st "nofetch"
+  | fl =>
+    let seq := (fl.getD (r % fl.length) (0, [])).1
+    let st1 := { st with pendAdd := st.pendAdd ++ [seq], failed := if ok then st.failed else seq :: st.failed }
+    -- a failed fetch reports its error before it needs the buffer mutex
+    let st2 := if ok then st1 else (act st1 (.fetchErr seq)).getD st1
+    finish (settle 64 st2) s!"seq={seq}"
 
 def rstep (st0 : RSt) (ws : List String) : RSt × String :=
   let st := { st0 with out := [] }
@@ -133,15 +170,10 @@ def rstep (st0 : RSt) (ws : List String) : RSt × String :=
   | ["rel", t] =>
     let tid := tidOf t
     if !parked st tid then finish st "noop" else
-    finish (settle 8 (setFree st tid true)) "ok"
-  | ["fin", r] =>
-    match st.s.inflight with
-    | [] => finish st "nofetch"
-    | fl =>
-      let seq := (fl.getD (natOr r % fl.length) (0, [])).1
-      match (act st (.fetchDone seq)).bind (fun s1 => act s1 .drain) with
-      | some st1 => finish (settle 8 st1) s!"seq={seq}"
-      | none => finish st "model-stuck"
+    finish (settle 64 (setFree st tid true)) "ok"
+  | ["fin", r] => complete st (natOr r) true
+  | ["fail", r] => complete st (natOr r) false
+  | ["take", n] => finish (takeN (natOr n) st) "ok"
   | _ => finish st "bad-op"
 
 inductive Mode where
